@@ -336,7 +336,8 @@ impl Ctx {
             })).collect::<Vec<_>>(),
         });
         if !self.strict && std::env::var("VERIF_ONLY").is_err() {
-            let dir = format!("{}/evidence", VERIF_DIR);
+            // development runs against scratch worktrees (tools/try_worktree.sh) write elsewhere
+            let dir = std::env::var("VERIF_EVIDENCE_DIR").unwrap_or_else(|_| format!("{}/evidence", VERIF_DIR));
             let _ = std::fs::create_dir_all(&dir);
             let path = format!("{}/{}.json", dir, self.id);
             std::fs::write(&path, serde_json::to_string_pretty(&ev).unwrap())
